@@ -156,6 +156,13 @@ def finish(prop, tier, level, results, replay_fn=None, trusted_base=(), explanat
         path = os.path.join(REPLAY_DIR, prop, safe_name(o['name']) + '.json')
         with open(path, 'w') as f:
             json.dump(rep, f, indent=1, default=str)
+        if '[needs-witness]' in (o.get('detail') or '') and not (outcome is not None and outcome.get('reproduced') is True):
+            # refuted for lack of evidence on the path (a check the contract expects in THIS function was not seen), not by a counter-model of the
+            # property: a violation only if the replay finds a failing input; otherwise the code may establish the fact elsewhere -> undecided
+            o['status'] = 'undecided'
+            o['detail'] = (o.get('detail') or '') + ' [no failing input found by the replay: the fact may be established outside this function]'
+            undecided.append(o)
+            continue
         if outcome is not None and outcome.get('reproduced') is False:
             # the model is an artefact of an abstraction: never raise an alarm for it
             o['status'] = 'undecided'
@@ -175,9 +182,9 @@ def finish(prop, tier, level, results, replay_fn=None, trusted_base=(), explanat
                 known_hits.append((k, {'name': s['name'], 'detail': json.dumps(v)[:200]}))
                 continue
             path = os.path.join(REPLAY_DIR, prop, safe_name('standin_' + s['name']) + '.json')
-            with open(path, 'w') as f:
-                json.dump({'property': prop, 'standin': s['name'], 'violation': v}, f, indent=1, default=str)
             bounded_viol.append((s, v, path))
+            with open(path, 'w') as f:
+                json.dump({'property': prop, 'standin': s['name'], 'violations': [vv for ss, vv, pp in bounded_viol if pp == path]}, f, indent=1, default=str)
 
     wall = time.time() - t0
     n_ob = len(names)
@@ -229,8 +236,14 @@ def finish(prop, tier, level, results, replay_fn=None, trusted_base=(), explanat
             tail = ' no-failing-input-found'
         print('refuted: %s %s' % (o['name'], (o.get('detail') or '')[:300]))
         print('VIOLATION property=%s replay=%s%s' % (prop, _rel(path), tail))
+    per = {}
     for s, v, path in bounded_viol:
-        print('bounded stand-in %s found a failing input: %s' % (s['name'], json.dumps(v)[:300]))
+        per.setdefault((s['name'], path), []).append(v)
+    for (sname, path), vs in per.items():
+        for v in vs[:3]:
+            print('bounded stand-in %s found a failing input: %s' % (sname, json.dumps(v)[:300]))
+        if len(vs) > 3:
+            print('bounded stand-in %s: %d more failing inputs in the replay file' % (sname, len(vs) - 3))
         print('VIOLATION property=%s replay=%s' % (prop, _rel(path)))
     for t, c in crashes:
         print('CHECKER-ERROR in task %s:\n%s' % (t, c))
